@@ -12,7 +12,7 @@ def correspond(ctx):
                          "emitted by the real cspuz.graph.active_vertices_connected on a real Solver vs the Lean model's "
                          "program (declarations in order, constraints as a multiset); non-trivial = a program was emitted, "
                          "distinct by call arguments")
-    graphcorr.run_cases(ctx, graphcorr.case_avc, ctx.n(400, 6000), "avc")
+    graphcorr.run_cases(ctx, graphcorr.case_avc, ctx.n(400, 6000), "avc", bigs=graphcorr.graph_bigs() + graphcorr.grid_bigs())
     if not ctx.quick():
         fs = search(ctx, None, budget=40)
         for f in fs:
@@ -39,6 +39,44 @@ def _check_graph(n, edges, acyclic, prim, forms=None):
         if got != want:
             return list(pat), got, want
     return None
+
+
+def _check_patterns(n, edges, acyclic, prim, patterns):
+    """Selected activity patterns of a medium / large graph on the real code (see graphs.vertex_patterns)."""
+    from cspuz import graph as G
+    mk = graphs.mk_graph(n, edges)
+
+    def builder(s):
+        vs = [s.bool_var() for _ in range(n)]
+        return lambda: G.active_vertices_connected(s, vs, mk, acyclic=acyclic, use_graph_primitive=prim)
+    decls, cs, base, _ = graphs.real_program(builder)
+    for name, pat in patterns:
+        got = exprio.solve_prog(decls, cs, base, {f"b{i}": pat[i] for i in range(n)}) is not None
+        want = graphs.is_tree_or_empty(n, edges, pat) if acyclic else graphs.is_connected(n, edges, pat)
+        if got != want:
+            return name, [v for v in range(n) if pat[v]], got, want
+    return None
+
+
+def _check_board(h, w, acyclic, regions, prim=False):
+    """Selected regions of an h x w board through the public BoolArray2D entry point."""
+    from cspuz import graph as G
+
+    def builder(s):
+        arr = s.bool_array((h, w))
+        return lambda: G.active_vertices_connected(s, arr, acyclic=acyclic, use_graph_primitive=prim)
+    decls, cs, base, _ = graphs.real_program(builder)
+    edges = graphs.grid_edges(h, w)
+    for name, cells in regions:
+        pat = [(y, x) in cells for y in range(h) for x in range(w)]
+        got = exprio.solve_prog(decls, cs, base, {f"b{i}": pat[i] for i in range(h * w)}) is not None
+        want = graphs.is_tree_or_empty(h * w, edges, pat) if acyclic else graphs.is_connected(h * w, edges, pat)
+        if got != want:
+            return name, ["".join("#" if pat[y * w + x] else "." for x in range(w)) for y in range(h)], got, want
+    return None
+
+
+WINDING_BOARDS = ((5, 6), (6, 5), (6, 6), (5, 7), (7, 7), (4, 9))
 
 
 def _neg_forms(vs):
@@ -69,9 +107,45 @@ def search(ctx, why, budget=None):
                         found[key] = Finding(
                             "avc:" + key,
                             f"active_vertices_connected(acyclic={acyclic}, use_graph_primitive={prim}) on graph n={n} edges={edges} "
-                            f"is_active({fname})={bad[0]}: satisfiable={bad[1]} but expected {bad[2]}",
+                            f"is_active({fname})={bad[0]}: satisfiable={bad[1]} but expected {bad[2]}" + graphs.history_note(n, edges),
                             {"n": n, "edges": edges, "acyclic": acyclic, "prim": prim, "forms": fname, "pattern": bad[0],
                              "got": bad[1], "want": bad[2]})
+    # medium and LARGE graphs (vertex ids >= 257, more than 32 / 64 vertices): targeted patterns instead of all subsets
+    for (n, edges) in graphs.big_graphs():
+        for acyclic in (False, True):
+            for prim in (False, True):
+                key = "big:" + ("acyclic" if acyclic else "connected") + (":prim" if prim else ":aux")
+                if key in found or (acyclic and prim):
+                    continue
+                try:
+                    bad = _check_patterns(n, edges, acyclic, prim, graphs.vertex_patterns(n, edges))
+                except Exception as e:
+                    bad = ("exception", None, core.err_name(e), str(e)[:200])
+                ctx.count("search:" + key)
+                if bad:
+                    found[key] = Finding(
+                        "avc:" + key[4:] + ":large-graph",
+                        f"active_vertices_connected(acyclic={acyclic}, use_graph_primitive={prim}) on a graph with {n} vertices and "
+                        f"{len(edges)} edges (edges {edges[:4]} ... {edges[-6:]}), active vertices ({bad[0]}) = {bad[1] if bad[1] is None or len(bad[1]) <= 16 else str(bad[1][:8]) + ' ... ' + str(bad[1][-8:])}: "
+                        f"satisfiable={bad[2]} but expected {bad[3]}",
+                        {"big": True, "n": n, "edges": edges, "acyclic": acyclic, "prim": prim, "pattern_name": bad[0], "active": bad[1]})
+    # winding regions (serpentines, spirals: the in-region distances exceed the board's diameter) through the 2-D entry point
+    for (h, w) in WINDING_BOARDS:
+        for acyclic in (False, True):
+            key = "board:" + ("acyclic" if acyclic else "connected")
+            if key in found:
+                continue
+            try:
+                bad = _check_board(h, w, acyclic, graphs.winding_regions(h, w))
+            except Exception as e:
+                bad = ("exception", None, core.err_name(e), str(e)[:200])
+            ctx.count("search:" + key)
+            if bad:
+                found[key] = Finding(
+                    "avc:grid:winding-region",
+                    f"active_vertices_connected(acyclic={acyclic}) on a {h}x{w} BoolArray2D, active cells ({bad[0]}) = {bad[1]}: "
+                    f"satisfiable={bad[2]} but expected {bad[3]}",
+                    {"board": [h, w], "acyclic": acyclic, "region_name": bad[0], "rows": bad[1]})
     # grids through the public 2-D entry point
     from cspuz import graph as G, Solver
     from cspuz.array import BoolArray2D
@@ -100,6 +174,17 @@ def search(ctx, why, budget=None):
 
 
 def replay(ctx, data):
+    if "board" in data:
+        h, w = data["board"]
+        cells = {(y, x) for y in range(h) for x in range(w) if data["rows"] and data["rows"][y][x] == "#"}
+        bad = _check_board(h, w, data["acyclic"], [(data.get("region_name"), cells)])
+        return Finding("avc:replay", f"still fails: {bad}", data) if bad else None
+    if data.get("big"):
+        n = data["n"]
+        act = set(data["active"] or [])
+        bad = _check_patterns(n, [tuple(e) for e in data["edges"]], data["acyclic"], data["prim"],
+                              [(data.get("pattern_name"), [v in act for v in range(n)])])
+        return Finding("avc:replay", f"still fails: {bad}", data) if bad else None
     if "grid" in data:
         fs = [f for f in search(ctx, None, budget=1) if f.signature.startswith("avc:grid")]
         return fs[0] if fs else None
